@@ -29,7 +29,8 @@ EXPLANATION = (
     'decode(H encode(d)) = d for Blast/MRC/SVDMimo/GMDMimo (layout included), W^H W = I/Nt, pinv(H) H = I, '
     '(H^H H + s I) W_mmse = H^H, W_mmse(s=0) H = I, and that Blast selects MMSE exactly when noise_var > 0. Alamouti and '
     'MRT (elementwise code) are not interpreted. Not decided: whether util.misc.gmd honours the GMD contract, '
-    'floating-point error, conditioning.')
+    'floating-point error, conditioning.'
+    ' General rules also applied here (see DESIGN 10.5): validate-before-commit (no `raise` reachable after the object was already changed in a public mutator); input immutability (no in-place modification of an array argument, alias- and view-aware).')
 
 SCHEMES = [  # class, channel shape, data size, expected encode shape, received shape
     ('Blast', ('Nr', 'Nt')), ('MRC', ('Nr', 'Nt')), ('SVDMimo', ('Nr', 'Nt')), ('GMDMimo', ('Nr', 'Nt')),
